@@ -103,11 +103,11 @@ func vsBatchEquation(es []vEntry, rnd []byte, variant int, ctx string) bool {
 var vBatchSizesQuick = [...]int{0, 1, 2, 3, 4, 5, 6, 8, 9}
 var vBatchSizesThorough = [...]int{0, 1, 2, 3, 4, 5, 6, 7, 8, 9, 13, 63, 64, 65, 67, 68, 69, 127, 128, 129, 130, 131}
 
-// malformed-entry kinds: 0 none, 1 key of 31 bytes, 2 signature of 63 bytes, 3 signature of 65 bytes, 4 nil signature, 5 nil key
+// malformed-entry kinds: 0 none, 1 key of 31 bytes, 2 signature of 63 bytes, 3 signature of 65 bytes, 4 nil signature, 5 nil key, 6 digest of 63 bytes (ph)
 func vBatchEntries(n, badPos, badKind, variant int) []vEntry {
 	es := make([]vEntry, n)
 	for i := 0; i < n; i++ {
-		kl, sl := 32, 64
+		kl, sl, ml := 32, 64, 64
 		isNilSig, isNilKey := false, false
 		if i == badPos {
 			switch badKind {
@@ -121,6 +121,8 @@ func vBatchEntries(n, badPos, badKind, variant int) []vEntry {
 				isNilSig = true
 			case 5:
 				isNilKey = true
+			case 6:
+				ml = 63
 			}
 		}
 		if !isNilKey {
@@ -130,7 +132,7 @@ func vBatchEntries(n, badPos, badKind, variant int) []vEntry {
 			es[i].sig = vBytes("sig"+vItoa(i), sl)
 		}
 		if variant == 2 {
-			es[i].msg = vBytes("digest"+vItoa(i), 64)
+			es[i].msg = vBytes("digest"+vItoa(i), ml)
 		} else {
 			es[i].msg = vBlob("M" + vItoa(i))
 		}
@@ -145,40 +147,32 @@ func vItoa(i int) string {
 	return vItoa(i/10) + string(rune('0'+i%10))
 }
 
-// C06: VerifyBatch per-entry result == single verification of that entry, summary == conjunction,
-// one result per entry, no error and no panic; for every batch length in the bound, any position of one
-// malformed entry, all entry bytes, all three variants, ZIP-215 flag symbolic.
+// vBatchRun calls VerifyBatch on n fully symbolic entries (one optionally malformed) and installs the
+// assumptions A1/A2 for every chunk of well-formed entries.
 // Assumption A1 (layers 2-3 of the design: batch algebra + exact multi-scalar multiplication + the
 // probabilistic soundness of random linear combination): for every 64-entry-or-smaller chunk of well-formed
 // entries, the batch equation built from the documented points/scalars holds iff every entry's own
 // cofactored equation holds.  A2: decodability does not depend on the sign bit (C10).
-func vBatchCase(variant int) {
+type vBatchResult struct {
+	es       []vEntry
+	ok       bool
+	valid    []bool
+	err      error
+	panicked bool
+	nChunks  int
+	ctx      string
+	zip      bool
+	entropyOK bool
+}
+
+func vBatchRun(n, badPos, badKind, variant int) *vBatchResult {
 	vCutBatch()
 	vPrune(false)
-	var n int
-	if vTier() == 0 {
-		n = vBatchSizesQuick[vCase(0, len(vBatchSizesQuick)-1)]
-	} else {
-		n = vBatchSizesThorough[vCase(0, len(vBatchSizesThorough)-1)]
-	}
-	badKind := 0
-	badPos := -1
-	if n > 0 {
-		badKind = vCase(0, 5)
-		if badKind != 0 {
-			// position: first, middle, last
-			switch vCase(0, 2) {
-			case 0:
-				badPos = 0
-			case 1:
-				badPos = n / 2
-			case 2:
-				badPos = n - 1
-			}
-		}
-	}
+	r := &vBatchResult{}
 	es := vBatchEntries(n, badPos, badKind, variant)
+	r.es = es
 	zip := vBool("zip215")
+	r.zip = zip
 	opts := &Options{ZIP215Verify: zip}
 	ctx := ""
 	switch variant {
@@ -190,18 +184,15 @@ func vBatchCase(variant int) {
 		opts.Context = ctx
 		opts.Hash = crypto.SHA512
 	}
+	r.ctx = ctx
 	pks := make([]PublicKey, n)
 	msgs := make([][]byte, n)
 	sigs := make([][]byte, n)
 	for i := range es {
 		pks[i], msgs[i], sigs[i] = es[i].pk, es[i].msg, es[i].sig
 	}
-	var ok bool
-	var valid []bool
-	var err error
-	p := vCatch(func() { ok, valid, err = VerifyBatch(vReader("entropy"), pks, msgs, sigs, opts) })
+	r.panicked = vCatch(func() { r.ok, r.valid, r.err = VerifyBatch(vReader("entropy"), pks, msgs, sigs, opts) })
 	vReach("VerifyBatch returned")
-	vAssert(!p, "VerifyBatch never panics")
 	// entropy: one read of 16*chunk bytes per chunk of >= 4 entries
 	nChunks := 0
 	for rem := n; rem >= 4; {
@@ -213,20 +204,19 @@ func vBatchCase(variant int) {
 		rem -= c
 		nChunks++
 	}
+	r.nChunks = nChunks
 	vAssert(vReaderCalls() == nChunks, "one entropy read per chunk")
 	anyFail := false
 	for k := 0; k < nChunks; k++ {
 		anyFail = anyFail || vReaderFailed(k)
 	}
 	if anyFail {
-		// an entropy failure surfaces as an error (only the first failing read is reached)
-		return
+		return r
 	}
 	for k := 0; k < nChunks; k++ {
 		vAssume(!vReaderFailed(k))
 	}
-	vAssert(vIsNilErr(err), "no error for matching argument counts, admissible context and working entropy")
-	vAssert(len(valid) == n, "one result per entry")
+	r.entropyOK = true
 	// assumptions A1/A2 per chunk
 	off := 0
 	for k := 0; k < nChunks; k++ {
@@ -236,7 +226,7 @@ func vBatchCase(variant int) {
 		}
 		wellFormed := true
 		for i := off; i < off+c; i++ {
-			if len(es[i].pk) != 32 || len(es[i].sig) != 64 {
+			if len(es[i].pk) != 32 || len(es[i].sig) != 64 || (variant == 2 && len(es[i].msg) != 64) {
 				wellFormed = false
 			}
 		}
@@ -250,13 +240,54 @@ func vBatchCase(variant int) {
 		}
 		off += c
 	}
+	return r
+}
+
+// C06: VerifyBatch per-entry result == single verification of that entry, summary == conjunction,
+// one result per entry, no error and no panic; for every batch length in the bound, any position of one
+// malformed entry, all entry bytes, all three variants, ZIP-215 flag symbolic.
+func vBatchCase(variant int) {
+	var n int
+	if vTier() == 0 {
+		n = vBatchSizesQuick[vCase(0, len(vBatchSizesQuick)-1)]
+	} else {
+		n = vBatchSizesThorough[vCase(0, len(vBatchSizesThorough)-1)]
+	}
+	vNote("batch lengths: quick {0,1,2,3,4,5,6,8,9}, thorough adds {7,13,63,64,65,67,68,69,127..131}; at most one malformed entry (6 kinds) at first/middle/last position; all entry bytes symbolic; messages opaque")
+	badKind := 0
+	badPos := -1
+	maxKind := 5
+	if variant == 2 {
+		maxKind = 6
+	}
+	if n > 0 {
+		badKind = vCase(0, maxKind)
+		if badKind != 0 {
+			switch vCase(0, 2) {
+			case 0:
+				badPos = 0
+			case 1:
+				badPos = n / 2
+			case 2:
+				badPos = n - 1
+			}
+		}
+	}
+	r := vBatchRun(n, badPos, badKind, variant)
+	vAssert(!r.panicked, "VerifyBatch never panics")
+	if !r.entropyOK {
+		vAssert(!vIsNilErr(r.err), "an entropy failure surfaces as an error")
+		return
+	}
+	vAssert(vIsNilErr(r.err), "no error for matching argument counts, admissible context and working entropy")
+	vAssert(len(r.valid) == n, "one result per entry")
 	conj := true
 	for i := 0; i < n; i++ {
-		want := vsEntryVerdict(es[i], variant, ctx, zip)
-		vAssert(valid[i] == want, "per-entry result == single verification of the entry")
+		want := vsEntryVerdict(r.es[i], variant, r.ctx, r.zip)
+		vAssert(r.valid[i] == want, "per-entry result == single verification of the entry")
 		conj = conj && want
 	}
-	vAssert(ok == conj, "summary flag == conjunction of the entries")
+	vAssert(r.ok == conj, "summary flag == conjunction of the entries")
 }
 
 func vh_C06_VerifyBatch_pure() { vBatchCase(0) }
